@@ -178,6 +178,8 @@ func (e *env) tr(x ast.Expr) (s string, isBool bool) {
 			return "(" + a + " - " + b + ")", false
 		case token.MUL:
 			return "(" + a + " * " + b + ")", false
+		case token.QUO:
+			return "(BitVec.sdiv " + a + " " + b + ")", false
 		case token.SHL:
 			return "(" + a + " <<< " + b + ")", false
 		case token.SHR:
@@ -354,6 +356,22 @@ func kernel(fd *ast.FuncDecl, leanName, mode string) string {
 		st := stmts[0]
 		rest := stmts[1:]
 		switch v := st.(type) {
+		case *ast.DeclStmt:
+			// const name = expr
+			gd, ok := v.Decl.(*ast.GenDecl)
+			if !ok || gd.Tok != token.CONST || len(gd.Specs) != 1 {
+				fail("declaration statement")
+			}
+			vs, ok := gd.Specs[0].(*ast.ValueSpec)
+			if !ok || len(vs.Names) != 1 || len(vs.Values) != 1 {
+				fail("const declaration")
+			}
+			rhs, b := e.tr(vs.Values[0])
+			if b {
+				fail("bool const")
+			}
+			e.i64[vs.Names[0].Name] = true
+			return "let " + vs.Names[0].Name + " : I64 := " + rhs + "\n  " + body(rest)
 		case *ast.AssignStmt:
 			if len(v.Lhs) != 1 || len(v.Rhs) != 1 {
 				fail("multi-assign")
@@ -1071,6 +1089,13 @@ structure MethodFacts where
 		}},
 		{"specialNetProtocols", func() string {
 			return stringSwitchSet(mustFunc("url/url.go", "isSpecialNetProtocol"), "specialNetProtocols")
+		}},
+	})
+
+	// ---- event loop kernels
+	emitFile("EventLoopKernels.lean", hdr, []fragment{
+		{"msToDuration", func() string {
+			return kernel(mustFunc("eventloop/eventloop.go", "msToDuration"), "msToDuration", "value")
 		}},
 	})
 
